@@ -110,7 +110,7 @@ CHECKS["C02"] = dict(
     assumptions=LIN_ASSUME,
     min_nontrivial=50,
     jobs=[dict(cmd="c02", tiers=["quick", "thorough"], timeout=1500),
-          dict(cmd="c02", flavour="tsan", tiers=["thorough"], timeout=2400, shards=8, env={"TSAN_OPTIONS": "halt_on_error=1 second_deadlock_stack=1"}),
+          dict(cmd="c02", flavour="tsan", tier_arg="quick", tiers=["thorough"], timeout=2400, env={"TSAN_OPTIONS": "halt_on_error=1 second_deadlock_stack=1"}),
           dict(cmd="c02", flavour="miri", tier_arg="miri", tiers=["thorough"], timeout=3000)],
 )
 
